@@ -201,7 +201,7 @@ def short_name(n):
 
 # ------------------------------------------------------------------ the executor
 class Executor:
-    def __init__(s, prog, models, max_block_visits=64, max_frames=60, solver_timeout_ms=60000, max_paths=200000,
+    def __init__(s, prog, models, max_block_visits=64, max_frames=60, solver_timeout_ms=300000, max_paths=200000,
                  max_steps=2_000_000):
         s.prog = prog; s.models = models; s.max_block_visits = max_block_visits; s.max_frames = max_frames
         s.max_paths = max_paths; s.max_steps = max_steps
